@@ -9,6 +9,7 @@ nothing on stdout — except where the protocol model accepts the status (`git
 config --get` exiting 1 means "unset"), in which case the report must be
 identical to the fault-free one.  Invalid input: each reachable object missing
 in turn, shallow marker, no repository, invalid options, unresolvable ROOT."""
+import os
 import random
 
 import scenario as S
@@ -168,6 +169,27 @@ def run(ctx):
             expect_fail("sizer.%s = %r (a valid value with white space around it) in gitconfig" % (k, v), config=[("sizer." + k, v)], args=[])
             expect_fail("--%s=%r" % (k, v), args=["--%s=%s" % (k, v)])
         expect_fail("invalid sizer.jsonVersion in gitconfig", config=[("sizer.jsonVersion", "9")], args=["--json"])
+        # a report that cannot be written is not a report: stdout on a full device or closed for writing -> non-zero status and
+        # a message, in every format ("exits with status 0 only after writing a complete report")
+        import subprocess as _sp
+        wsc = S.Scenario()
+        wb = wsc.add({"kind": "blob", "data": b"w" * 3000})
+        wt = wsc.add({"kind": "tree", "entries": [(0o100644, b"f", wb)]})
+        wsc.refs.append((b"refs/heads/main", wsc.add({"kind": "commit", "tree": wt, "parents": []})))
+        wsc.compute()
+        wd = os.path.join(eng.scratch, "unwritable")
+        wsc.materialise(wd)
+        for fmt in ([], ["-v"], ["--json"], ["--json", "--json-version=2"], ["-v", "--names=none"]):
+            for what, opener in (("/dev/full", lambda: open("/dev/full", "wb")), ("a descriptor opened read-only", lambda: open("/dev/null", "rb"))):
+                with opener() as fh:
+                    p = _sp.run([ctx["bins"]["sizer"], "--no-progress"] + fmt, cwd=wd, env=S.clean_env(), stdout=fh, stderr=_sp.PIPE, timeout=60)
+                res.case(("unwritable", tuple(fmt), what), True)
+                if p.returncode == 0 or not p.stderr.strip():
+                    res.violations.append(vlib.Violation(
+                        "exit status 0 although the report could not be written (stdout is %s)" % what, {"argv": ["--no-progress"] + fmt, "stdout": what},
+                        expected="non-zero exit and an error message on stderr",
+                        observed={"rc": p.returncode, "stderr": p.stderr[:200].decode("latin1")},
+                        cls="json-write-error-ignored" if "--json" in fmt else None))
         expect_fail("invalid regexp in refgroup", config=[("refgroup.x.includeregexp", "(")], args=[])
         expect_fail("refgroup without rules", config=[("refgroup.x.name", "X")], args=[])
     finally:
